@@ -237,7 +237,8 @@ def reclassify_unknown_callees(res, text, tag):
         now = unit_loop_counts(text)
         # (a function that has NO loop left carries no loop contract any more — they are dropped — so its
         #  postcondition decides as usual)
-        changed = [q for q, n_ in now.items() if q in loops0 and loops0[q] != n_ and n_ > 0]
+        # (nor can anything be mis-attached in a function that had no loop, hence no loop contract, before)
+        changed = [q for q, n_ in now.items() if q in loops0 and loops0[q] != n_ and n_ > 0 and loops0[q] > 0]
         moved_ = [f for f in res["failures"] if f["function"] in changed]
         if moved_:
             res["failures"] = [f for f in res["failures"] if f not in moved_]
@@ -347,6 +348,21 @@ def run_unit(unit_name, template_rel, variant):
     if not res["functions"]:
         res["status"] = "undecided"
         res["undecided"] = "zero obligations generated"
+        return res
+    # ownership conditions on operator values (structural, from the extracted struct definitions)
+    if (stats or {}).get("plain_values"):
+        res["ownership_conditions"] = []
+        for (sname, spath, cells_) in stats["plain_values"]:
+            res["ownership_conditions"].append(dict(struct=sname, file=spath, status="plain value" if not cells_ else "holds a shared cell: " + ", ".join(cells_)))
+            if cells_:
+                res["failures"].append(dict(function="%s (operator value is plain data)" % sname, tags=["C13"],
+                                            kind="ownership condition not satisfied",
+                                            clause="struct %s holds no shared mutable cell" % sname,
+                                            text="the operator value `%s` (%s) has a field whose type mentions %s: the derived Clone shares that cell between the subscriptions of clones of one pipeline (per-subscription state must be created in actual_subscribe)" % (sname, spath, ", ".join(cells_))))
+                res["status"] = "violated"
+    if res["status"] == "ok" and (stats or {}).get("yield_points_missing"):
+        res["status"] = "undecided"
+        res["undecided"] = "yield point(s) no longer found, the re-entry obligation could not be placed: " + "; ".join(stats["yield_points_missing"])
         return res
     # borrow probes: lock-scope obligations discharged by the borrow checker
     if ptext is not None and res["status"] != "undecided":
